@@ -114,24 +114,54 @@ def run(idx, rep, tier):
             rep.decide(ok, "projection", f"{f.short}:projection", text, detail="" if ok else "conjugate-side", locs=[idx.loc(f.module, node)])
     if not n_proj:
         rep.undecided("projection", "lanczos_fact:projection", "no Gram-Schmidt projection step recognised")
-    # ---- Ritz pairs ascending and paired
-    easg = df.assignments(eigs.node)
-    idxn = next((n for n, vals in easg.items() for v, p, st in vals if isinstance(v, ast.Call) and nospace(v.func).endswith("argsort")), None)
-    if idxn is None:
-        rep.refuted("ritz-pairs", "lanczos_eigs", "Ritz values are not sorted (no argsort)", detail="unsorted", locs=[idx.loc(eigs.module, eigs.node)])
-    else:
-        src = nospace(eigs.node)
-        vals_ok = f"[...,{idxn}]" in src or f"[{idxn}]" in src
-        cols_ok = f"[:,{idxn}]" in src
-        desc = any(isinstance(v, ast.Call) and nospace(v.func).endswith("argsort") and v.args and isinstance(v.args[0], ast.UnaryOp) for vals in easg.values() for v, p, st in vals)
-        ok = vals_ok and cols_ok and not desc
-        rep.decide(ok, "ritz-pairs", "lanczos_eigs", f"values {'permuted' if vals_ok else 'NOT permuted'} and vector columns {'permuted' if cols_ok else 'NOT permuted'} by `{idxn}`"
-                   f"{' (descending!)' if desc else ' (ascending argsort)'}", detail="" if ok else "pairing", locs=[idx.loc(eigs.module, eigs.node)])
+    # ---- Ritz pairs ascending and paired: the ORDER of the returned values (abstract interpretation over spectrum orders, helpers
+    # followed: eigh yields ascending values, x[argsort(x)] ascending, x[argsort(abs(x))] magnitude order, ...), and wherever values
+    # are re-ordered by an index that is not the identity the vector columns must be re-ordered by the same index
+    from props.C10 import ASC_ALG, Order, index_names, uses_of
+    od = Order(idx)
+    rets = [r for r in df.returns(eigs.node) if isinstance(r.value, ast.Tuple) and len(r.value.elts) >= 2]
+    if not rets:
+        rep.undecided("ritz-pairs", "lanczos_eigs", "does not return a (values, vectors, ..) tuple", locs=[idx.loc(eigs.module, eigs.node)])
+    for r in rets[:1]:
+        v = od.eval_in(eigs, r.value.elts[0])
+        orders = sorted({a_[1] for a_ in od.spec_alts(v)})
+        loc_ = [idx.loc(eigs.module, getattr(r, "_origin", r))]
+        if not orders:
+            rep.undecided("ritz-pairs", "lanczos_eigs", f"order of the returned values `{ast.unparse(r.value.elts[0])}` not determined", locs=loc_)
+        elif orders == [ASC_ALG]:
+            rep.proved("ritz-pairs", "lanczos_eigs", f"the returned values `{ast.unparse(r.value.elts[0])}` are in ascending (algebraic) order", locs=loc_)
+        else:
+            rep.refuted("ritz-pairs", "lanczos_eigs", f"the returned values `{ast.unparse(r.value.elts[0])}` are in {' / '.join(orders)} order; required ascending", detail="order", locs=loc_)
+    for f in closure(idx, eigs, same_module=True):
+        if getattr(f, "rule", None) is not None:
+            continue
+        for name_, kind_ in sorted(index_names(f).items()):
+            if kind_ != "perm":
+                continue
+            # the argsort of values that are already ascending is the identity: nothing to pair
+            src_calls = [v_ for v_, p_, st_ in df.assignments(f.node).get(name_, []) if isinstance(v_, ast.Call) and v_.args]
+            arg_orders = {a_[1] for c_ in src_calls for a_ in od.spec_alts(od.eval_in(f, c_.args[0]))}
+            plain = all(df.is_xnp_call(c_) == "argsort" and not any(k_.arg == "descending" for k_ in c_.keywords) for c_ in src_calls)
+            if src_calls and plain and arg_orders == {ASC_ALG}:
+                continue
+            uses = uses_of(f, name_)
+            vec_uses = [u for u in uses if u[0] == "vec"]
+            col_uses = [u for u in uses if u[0] == "col"]
+            if vec_uses and not col_uses:
+                rep.refuted("ritz-pairs", f"{f.short}:{name_}", f"values are re-ordered by `{name_}` (not the identity) but the vector columns are not", detail="pairing",
+                            locs=[idx.loc(f.module, f.node)])
+            elif vec_uses and col_uses:
+                rep.proved("ritz-pairs", f"{f.short}:{name_}", f"values `{vec_uses[0][1]}` and vector columns `{col_uses[0][1]}` are permuted by the same index", locs=[idx.loc(f.module, f.node)])
     # ---- trimming: one consistent size
     trims = {}
     for st in df.body_nodes(lanczos.node):
+        pairs = []
         if isinstance(st, ast.Assign) and isinstance(st.value, ast.Tuple) and isinstance(st.targets[0], ast.Tuple):
-            for t, v in zip(st.targets[0].elts, st.value.elts):
+            pairs = list(zip(st.targets[0].elts, st.value.elts))
+        elif isinstance(st, ast.Assign) and len(st.targets) == 1 and isinstance(st.targets[0], ast.Name):
+            pairs = [(st.targets[0], st.value)]
+        if pairs:
+            for t, v in pairs:
                 if isinstance(v, ast.Subscript) and isinstance(t, ast.Name):
                     last = v.slice.elts[-1] if isinstance(v.slice, ast.Tuple) else v.slice
                     if isinstance(last, ast.Slice) and last.upper is not None and last.lower is None and not isinstance(last.upper, ast.Constant):
